@@ -24,18 +24,24 @@ MODE_METHODS = ("on_enable", "on_iteration", "on_disable")
 
 
 def mode_loop_sites(traces):
-    """the mode loop of a function is the outermost loop that contains the NotifierDelay wait (DESIGN.md C05)"""
+    """the mode loop of a function is the outermost loop that contains the NotifierDelay wait (DESIGN.md C05).
+    Loops of a generator body nest within that generator only (its body is interleaved with its consumer): the
+    wait belongs to the innermost running generator that has a loop open, else to the plain call stack."""
     sites = set()
     for tr in traces:
-        stack = []
+        stacks = {}
         for e in tr:
+            ctx = e.gen[-1] if e.gen else None
             if e.kind == "loop_begin":
-                stack.append(e.site[:2] if e.site else None)
+                stacks.setdefault(ctx, []).append(e.site[:2] if e.site else None)
             elif e.kind == "loop_end":
-                if stack:
-                    stack.pop()
-            elif e.kind == "ext" and e.name == "hal.waitForNotifierAlarm" and stack:
-                sites.add(stack[0])
+                if stacks.get(ctx):
+                    stacks[ctx].pop()
+            elif e.kind == "ext" and e.name == "hal.waitForNotifierAlarm":
+                for c in list(reversed(e.gen)) + [None]:
+                    if stacks.get(c):
+                        sites.add(stacks[c][0])
+                        break
     return sites
 
 
